@@ -128,6 +128,7 @@ static ZSTDMT_bufferPool* ZSTDMT_createBufferPool(unsigned maxNbBuffers, ZSTD_cu
         ZSTD_customFree(bufPool, cMem);
         return NULL;
     }
+    bufPool->cMem = cMem;   /* must be known by ZSTDMT_freeBufferPool() */
     bufPool->buffers = (buffer_t*)ZSTD_customCalloc(maxNbBuffers * sizeof(buffer_t), cMem);
     if (bufPool->buffers==NULL) {
         ZSTDMT_freeBufferPool(bufPool);
@@ -136,7 +137,6 @@ static ZSTDMT_bufferPool* ZSTDMT_createBufferPool(unsigned maxNbBuffers, ZSTD_cu
     bufPool->bufferSize = 64 KB;
     bufPool->totalBuffers = maxNbBuffers;
     bufPool->nbBuffers = 0;
-    bufPool->cMem = cMem;
     return bufPool;
 }
 
@@ -389,12 +389,12 @@ static ZSTDMT_CCtxPool* ZSTDMT_createCCtxPool(int nbWorkers,
         return NULL;
     }
     cctxPool->totalCCtx = nbWorkers;
+    cctxPool->cMem = cMem;   /* must be known by ZSTDMT_freeCCtxPool() */
     cctxPool->cctxs = (ZSTD_CCtx**)ZSTD_customCalloc(nbWorkers * sizeof(ZSTD_CCtx*), cMem);
     if (!cctxPool->cctxs) {
         ZSTDMT_freeCCtxPool(cctxPool);
         return NULL;
     }
-    cctxPool->cMem = cMem;
     cctxPool->cctxs[0] = ZSTD_createCCtx_advanced(cMem);
     if (!cctxPool->cctxs[0]) { ZSTDMT_freeCCtxPool(cctxPool); return NULL; }
     cctxPool->availCCtx = 1;   /* at least one cctx for single-thread mode */
@@ -514,6 +514,8 @@ ZSTDMT_serialState_reset(serialState_t* serialState,
             serialState->params.ldmParams.hashLog -
             serialState->params.ldmParams.bucketSizeLog;
         size_t const numBuckets = (size_t)1 << bucketLog;
+        /* ZSTDMT_serialState_free() must use the allocator of the tables, also after an allocation failure below */
+        serialState->params.customMem = cMem;
         /* Size the seq pool tables */
         ZSTDMT_setNbSeq(seqPool, ZSTD_ldm_getMaxNbSeq(params.ldmParams, jobSize));
         /* Reset the window */
